@@ -137,13 +137,22 @@ def build(targets: list[str] | None = None) -> BuildResult:
                 r.gen_msg += f"gen/{g} failed (rc={rc}):\n{out[-2000:]}\n"
         # translators whose output only some proofs depend on: when one fails closed its output is replaced by a file that
         # does not compile, so exactly the obligations resting on it stop checking (and say why)
-        for g, outv in (("commands.py", "Gen/Commands.v"), ("exprs.py", "Gen/Exprs.v"), ("screen.py", "Gen/ScreenOps.v"), ("server.py", "Gen/ParseServer.v"), ("server.py decodekey", "Gen/DecodeKey.v"), ("recorder.py", "Gen/RecorderOps.v"), ("expect.py", "Gen/ExpectOps.v"), ("dispatch.py", "Gen/RecorderDispatch.v")):
+        # gen/exprs.py writes one file per area and stubs the areas that fail itself
+        rc, out = _run([PY, os.path.join(VERIF, "gen", "exprs.py")], env=env, timeout=120)
+        if rc != 0:
+            for m_ in re.finditer(r"gen/exprs\.py\[(\w+)\] -> (Gen/\w+\.v): (.*)", out):
+                r.scoped_gen[m_.group(2)] = f"gen/exprs.py[{m_.group(1)}] failed closed: {m_.group(3)}"
+            if not any(k.startswith("Gen/Exprs") for k in r.scoped_gen):
+                r.gen_ok = False
+                r.gen_msg += f"gen/exprs.py failed (rc={rc}):\n{out[-2000:]}\n"
+        for g, outv in (("commands.py", "Gen/Commands.v"), ("screen.py", "Gen/ScreenOps.v"), ("server.py", "Gen/ParseServer.v"), ("server.py decodekey", "Gen/DecodeKey.v"), ("recorder.py", "Gen/RecorderOps.v"), ("expect.py", "Gen/ExpectOps.v"), ("dispatch.py", "Gen/RecorderDispatch.v")):
             rc, out = _run([PY, os.path.join(VERIF, "gen", g.split()[0])] + g.split()[1:], env=env, timeout=120)
             if rc != 0:
                 r.scoped_gen[outv] = f"gen/{g} failed closed: {out.strip().splitlines()[-1] if out.strip() else rc}"
                 with open(os.path.join(COQ, outv), "w") as fh:
                     fh.write("(* %s *)\nDefinition translator_failed_closed : True := 0.\n" % r.scoped_gen[outv].replace("*)", "* )"))
-        if not os.path.exists(os.path.join(COQ, "Makefile")):
+        mk, cp = os.path.join(COQ, "Makefile"), os.path.join(COQ, "_CoqProject")
+        if not os.path.exists(mk) or os.path.getmtime(mk) < os.path.getmtime(cp):
             _run(["coq_makefile", "-f", "_CoqProject", "-o", "Makefile"], cwd=COQ)
         rc, out = _run(["timeout", "1500", "make", "-k", "-j", str(NPROC)], cwd=COQ, timeout=1600)
         r.log = out
